@@ -4,7 +4,7 @@
 From Coq Require Import List Arith ZArith Reals Lra Lia Bool.
 From TLV Require Import Base.Shape Base.PyList Base.Tensor Base.BigSum Base.Ops Model.Transforms
   Proofs.TransformsProofs Proofs.TransformsProofsR Proofs.TransformsProofsTT Proofs.TransformsProofsTucker
-  Proofs.TransformsProofsPf2 Proofs.TransformsProofsR2.
+  Proofs.TransformsProofsPf2 Proofs.TransformsProofsR2 Proofs.TransformsProofsFlip.
 Import ListNotations.
 
 (* --- cp_permute_factors: any column permutation applied to all factors and the weights *)
@@ -38,6 +38,36 @@ Theorem C04_cp_flip_sign_entry_R : forall (summ : list R -> R) (w : list R) (fs 
   cp_entry Rops w' fs' idx = cp_entry Rops w fs idx.
 Proof. exact (fun summ => cp_flip_sign_entry Rops Rops_ring summ colsign_sq_R colsign_abs_R). Qed.
 Print Assumptions C04_cp_flip_sign_entry_R.
+
+(* canonical form: weights |w_r|, and on every factor other than the target mode each column summary becomes its absolute value,
+   for every summary that commutes with scaling a column (sum, mean) *)
+Theorem C04_cp_flip_sign_canonical : forall (F : Type) (Op : fops F),
+  ring_theory (f0 Op) (f1 Op) (fadd Op) (fmul Op) (fsub Op) (fopp Op) (@eq F) ->
+  forall summ : list F -> F,
+  (forall x, fmul Op (colsign Op x) (colsign Op x) = f1 Op) ->
+  (forall x, fmul Op (colsign Op x) (fabs Op x) = x) ->
+  (forall c l, summ (map (fun x => fmul Op x c) l) = fmul Op (summ l) c) ->
+  forall (w : list F) (fs : list (mat F)) (mode : nat) w' fs',
+  cp_flip_sign Op summ w fs mode = Ok (w', fs') ->
+  w' = map (fabs Op) w /\ length fs' = length fs /\
+  forall jj r, jj < length fs -> jj <> mode -> r < length w ->
+    summ (col Op (nth jj fs' []) r) = fabs Op (summ (col Op (nth jj fs []) r)).
+Proof. exact @cp_flip_sign_canonical. Qed.
+Print Assumptions C04_cp_flip_sign_canonical.
+
+Theorem C04_cp_flip_sign_canonical_mean_R : forall (w : list R) (fs : list (mat R)) (mode : nat) w' fs',
+  cp_flip_sign Rops (col_mean Rops) w fs mode = Ok (w', fs') ->
+  (forall r, r < length w -> (0 <= vget Rops w' r)%R) /\
+  forall jj r, jj < length fs -> jj <> mode -> r < length w -> (0 <= col_mean Rops (col Rops (nth jj fs' []) r))%R.
+Proof. exact cp_flip_sign_canonical_mean_R. Qed.
+Print Assumptions C04_cp_flip_sign_canonical_mean_R.
+
+Theorem C04_cp_flip_sign_canonical_sum_Z : forall (w : list Z) (fs : list (mat Z)) (mode : nat) w' fs',
+  cp_flip_sign Zops (col_sum Zops) w fs mode = Ok (w', fs') ->
+  (forall r, r < length w -> (0 <= vget Zops w' r)%Z) /\
+  forall jj r, jj < length fs -> jj <> mode -> r < length w -> (0 <= col_sum Zops (col Zops (nth jj fs' []) r))%Z.
+Proof. exact cp_flip_sign_canonical_sum_Z. Qed.
+Print Assumptions C04_cp_flip_sign_canonical_sum_Z.
 
 (* --- cp_mode_dot *)
 Theorem C04_cp_mode_dot_matrix : forall (F : Type) (Op : fops F),
